@@ -39,3 +39,36 @@ Fixpoint responses (evs : list h3ev) : list N :=
   | Respond c :: r => c :: responses r
   | _ :: r => responses r
   end.
+
+(* The read side of the same stream, as StreamSource::read decides it once the QUIC socket has nothing buffered for the
+   stream (QuicSocket::read returned None). The source looks at three things:
+   [reset_seen]  the codec has handled the client's RESET_STREAM (h3::Event::Reset -> QuicSocketEvent::Close) and raised the flag
+                 it shares with the source;
+   [q_finished]  quiche's stream_finished: true once the client's FIN has been read up to, and ALSO true for a stream that was
+                 reset (RecvBuf::reset moves the read offset to the final size) or that has been collected;
+   [registered]  the stream is still in the codec's table, i.e. the sender of the source's readable events lives.
+   [checks_reset] = H3_SOURCE_RESET_IS_A_READ_FAILURE: the flag is looked at before stream_finished; otherwise (as found) it
+   did not exist and a reset handled while the source was not parked in recv() was read as the end of the upload. *)
+Record h3src := { reset_seen : bool; q_finished : bool; registered : bool }.
+Definition h3src_0 : h3src := {| reset_seen := false; q_finished := false; registered := true |}.
+
+Inductive h3read :=
+| SrcEof        (* Ok(Data::Eof): the pipe passes an end of stream on to the destination and keeps the other direction *)
+| SrcErr        (* Err: the pipe fails and the tunnel is torn down *)
+| SrcWait.      (* parked in readable_event_rx.recv() *)
+
+Definition h3_read_empty (checks_reset : bool) (s : h3src) : h3read :=
+  if checks_reset && reset_seen s then SrcErr
+  else if q_finished s then SrcEof
+  else if registered s then SrcWait
+  else SrcErr.
+
+(* what the client's events do to what the source looks at (Respond does not concern the read side) *)
+Definition h3src_step (s : h3src) (e : h3ev) : h3src :=
+  match e with
+  | ClientFin => {| reset_seen := reset_seen s; q_finished := true; registered := registered s |}
+  | ClientReset => {| reset_seen := true; q_finished := true; registered := false |}
+  | Respond _ => s
+  end.
+
+Definition h3src_run (evs : list h3ev) : h3src := fold_left h3src_step evs h3src_0.
